@@ -1042,6 +1042,11 @@ func (w *_assembler) AssignBytes(p []byte) error {
 			// Any means the Go type must receive a datamodel.Node
 			w.createNonPtrVal().Set(reflect.ValueOf(basicnode.NewBytes(p)))
 		} else {
+			if p == nil {
+				// assigned bytes are present even when empty; a nil slice would read as
+				// absent or null where a plain []byte stands for an optional or nullable field
+				p = []byte{}
+			}
 			w.createNonPtrVal().SetBytes(p)
 		}
 	}
